@@ -5,7 +5,8 @@
    structs.ACLPolicies.Compile with one structs.ACLCaches.  For every token the harness recorded
    every acl.Authorizer method on every name of the universe: on the authorizer Compile returned,
    and on the chains [that; DenyAll] and [that; AllowAll]. *)
-From Verif Require Import Base.Prelude ACL.Model.
+From Verif Require Import Base.Prelude.
+From Verif Require Import ACL.Model.
 
 Record tok := Tok {
   t_idx : list N;                      (* pool indexes of the token's policies, in order *)
